@@ -862,6 +862,7 @@ class FileGen(Gen):
     write_games = ("osu",)
     read_games = ("osu",)
     reread_prop = None
+    p_api = 0.2
 
     def setup(self):
         self.io_r = self.s.streams["io"]
@@ -900,6 +901,11 @@ class FileGen(Gen):
             op["prop"] = self.reread_prop  # reading back what the library wrote is the writer property's clause
         if not faults:
             op["io"]["fault"] = None
+        if self.r.random() < self.p_api:
+            # the other observation point of the property: X.read(lines | text | bytes), the user program read the file itself
+            op["via"] = "api"
+            op["raw_newlines"] = self.r.random() < 0.3
+            op["io"] = dict(bufsize=8192, chunks=0, fault=None)
         return op
 
     def io_write_op(self, game, h, path, first=False, faults=True):
@@ -908,6 +914,9 @@ class FileGen(Gen):
             op["dest"] = self.s.knobs.get("dest_state", "absent")
         if not faults:
             op["io"]["fault"] = None
+        if self.r.random() < self.p_api:
+            op["via"] = "api"  # x.write(): the user program stores the result itself
+            op["io"] = dict(bufsize=8192, chunks=0, fault=None)
         return op
 
     def next_op(self):
